@@ -73,14 +73,14 @@ def durationWord (fmts : List DurFmt) (kind : Nat) (placeholder : String) (n : I
     | some f => replaceStr f.format placeholder (toString n)
     | none => toString n
 
+/-- greedy decomposition over a list of (kind, length) units, then the remaining seconds -/
+def partsFrom : List (Nat × Int) → Int → List (Nat × Int)
+  | [], d => if d > 0 then [(0, d)] else []
+  | (k, len) :: us, d => if d ≥ len then (k, d / len) :: partsFrom us (d % len) else partsFrom us d
+
 /-- greedy decomposition used by `DurationItem::print`: (kind, count) parts, kinds 6 … 0 -/
 def durationParts (secs : Int) : List (Nat × Int) :=
-  let d : Int := secs.natAbs
-  let step (acc : List (Nat × Int) × Int) (k : Nat × Int) : List (Nat × Int) × Int :=
-    let (parts, d) := acc
-    if d ≥ k.2 then (parts ++ [(k.1, d / k.2)], d % k.2) else (parts, d)
-  let (parts, d) := [(6, YEAR), (5, MONTH), (4, WEEK), (3, DAY), (2, HOUR), (1, MINUTE)].foldl step ([], d)
-  if d > 0 then parts ++ [(0, d)] else parts
+  partsFrom [(6, YEAR), (5, MONTH), (4, WEEK), (3, DAY), (2, HOUR), (1, MINUTE)] (secs.natAbs : Int)
 
 def durPlaceholder : Nat → String
   | 6 => "{year}" | 5 => "{month}" | 4 => "{week}" | 3 => "{day}" | 2 => "{hour}" | 1 => "{minute}"
